@@ -528,11 +528,15 @@ func (r *PipelineRunner) JobCompleted(id uuid.UUID, err error) {
 }
 
 func (r *PipelineRunner) startJobsOnWaitList(pipeline string) {
-	// Check wait list if another job is queued
-	waitList := r.waitListByPipeline[pipeline]
-
 	// Schedule as many jobs as are schedulable (also process if the schedule action is start delay and check individual jobs if they can be started)
-	for len(waitList) > 0 && r.resolveDequeueJobAction(waitList[0]) == scheduleActionStart {
+	for {
+		// Check wait list if another job is queued. The list is read again in every iteration, since starting a job
+		// can fail and then processes the wait list itself (see startJob).
+		waitList := r.waitListByPipeline[pipeline]
+		if len(waitList) == 0 || r.resolveDequeueJobAction(waitList[0]) != scheduleActionStart {
+			break
+		}
+
 		queuedJob := waitList[0]
 		// Queued job has a start delay timer set - wait for it to fire
 		if queuedJob.startTimer != nil {
@@ -540,7 +544,8 @@ func (r *PipelineRunner) startJobsOnWaitList(pipeline string) {
 			break
 		}
 
-		waitList = waitList[1:]
+		// Take the job off the wait list before it is started, so it cannot be started a second time
+		r.waitListByPipeline[pipeline] = waitList[1:]
 
 		r.startJob(queuedJob)
 
@@ -550,7 +555,6 @@ func (r *PipelineRunner) startJobsOnWaitList(pipeline string) {
 			WithField("jobID", queuedJob.ID).
 			Debugf("Dequeue: scheduled job execution")
 	}
-	r.waitListByPipeline[pipeline] = waitList
 }
 
 // IterateJobs calls process for each job in a read lock.
